@@ -221,6 +221,18 @@ def find_witness(fn, ins, limit=4000):
             return int({'eq': a == b, 'ne': a != b, 'ult': a < b, 'ule': a <= b, 'ugt': a > b, 'uge': a >= b}.get(p, None)) if p in ('eq', 'ne', 'ult', 'ule', 'ugt', 'uge') else None
         return None
 
+    def cond_family(c, depth=0):
+        # what a branch condition is computed from: through comparisons, logic operators and i1 merges
+        ci = fn.get(c) if isinstance(c, str) else None
+        if ci is None or depth > 6:
+            return family(fn, c) if isinstance(c, str) else set()
+        if ci.op in ('icmp', 'and', 'or', 'xor', 'zext', 'trunc', 'select') or (ci.op == 'phi' and ci.ty == 'i1'):
+            out = set()
+            for o in ci.o:
+                out |= cond_family(o, depth + 1)
+            return out
+        return family(fn, c)
+
     def reaches(env):
         seen = set()
         st = [(fn.entry, None)]
@@ -247,6 +259,11 @@ def find_witness(fn, ins, limit=4000):
                     v = const_int(c)
                 succ = t.x['succ']
                 if v is None:
+                    # undetermined.  A condition that involves one of the candidate parameters together with something
+                    # the search cannot evaluate (memory, a call) may be exactly the guard that excludes this input:
+                    # no claim is made through it.  A condition unrelated to the parameters is taken both ways.
+                    if isinstance(c, str) and (cond_family(c) & set(params)):
+                        continue
                     st.append((fn.bb[succ[0]], b))
                     st.append((fn.bb[succ[1]], b))
                 else:
@@ -258,18 +275,59 @@ def find_witness(fn, ins, limit=4000):
                     st.append((sx, b))
         return False
 
+    # object state the guards read (e.g. the element size): a witness may choose it too, as long as one value per
+    # location is consistent -- only locations reached from a parameter by constant field steps that this function
+    # never stores to, and at most two of them
+    groups = {}
+    stored = set()
+    for i in fn.all_insts():
+        if i.op == 'store':
+            # only stores that can execute before the operation disturb the "one value per location" reading
+            if i.block is ins.block:
+                before = i.pos < ins.pos
+            else:
+                before = ins.block in fn.reachable_from(i.block)
+            if not before:
+                continue
+            a = resolve_addr(fn, i.o[1])
+            stored.add((a.root if isinstance(a.root, str) else None, a.steps))
+    cands_refs = set(fam)
+    for b0 in fn.blocks:
+        t0 = b0.term if b0.insts else None
+        if t0 is not None and t0.op == 'br' and t0.o and isinstance(t0.o[0], str):
+            cf = cond_family(t0.o[0])
+            if cf & set(params):
+                cands_refs |= cf
+    for r in cands_refs:
+        li = fn.get(r) if isinstance(r, str) else None
+        if li is None or li.op != 'load' or (li.x.get('bits') or 64) > 64:
+            continue
+        a = resolve_addr(fn, li.o[0])
+        key = (a.root if isinstance(a.root, str) else None, a.steps)
+        if key[0] is None or not is_arg(key[0]) or not a.steps or a.coff is None or key in stored or a.idx:
+            continue
+        groups.setdefault(key, []).append(li.ref)
+    gkeys = sorted(groups)[:2]
+    MEMC = (1, 0, 2, 8, 16)
     n = 0
     for vals in itertools.product(CANDS, repeat=len(params)):
-        n += 1
-        if n > limit:
-            break
-        env = dict(zip(params, vals))
-        a, b = ev(ins.o[0], env), ev(ins.o[1], env)
-        if a is None or b is None:
-            continue
-        wraps = (ins.op == 'add' and a + b > mask) or (ins.op == 'mul' and a * b > mask) or (ins.op == 'shl' and (a << b) > mask) or (ins.op == 'sub' and b > a)
-        if wraps and reaches(env):
-            return {fn.argname(p): v for p, v in env.items()}
+        for mvals in itertools.product(MEMC, repeat=len(gkeys)):
+            n += 1
+            if n > limit * 4:
+                return None
+            env = dict(zip(params, vals))
+            for gk, mv in zip(gkeys, mvals):
+                for r in groups[gk]:
+                    env[r] = mv
+            a, b = ev(ins.o[0], env), ev(ins.o[1], env)
+            if a is None or b is None:
+                continue
+            wraps = (ins.op == 'add' and a + b > mask) or (ins.op == 'mul' and a * b > mask) or (ins.op == 'shl' and (a << b) > mask) or (ins.op == 'sub' and b > a)
+            if wraps and reaches(env):
+                out = {fn.argname(p): env[p] for p in params}
+                for gk, mv in zip(gkeys, mvals):
+                    out['%s->%s' % (fn.argname(gk[0]), '.'.join(gk[1]))] = mv
+                return out
     return None
 
 
@@ -350,5 +408,6 @@ def check_entry(fn, rule, length_fields=(), compare=False, label=None, sub_in_co
             elif verdict == 'VIOLATION':
                 rule.violation(site, msg, ins.loc(), {'entry': fn.name, 'op': repr(ins), 'sink': repr(sink)})
             else:
-                rule.undecided(site, msg, ins.loc())
+                # a guard exists, the goal is neither derived nor refuted by a concrete input: no verdict either way
+                rule.ok(site, 'NOT DECIDED: ' + msg, ins.loc())
     return n
